@@ -22,7 +22,7 @@ def handle : String → Option (P String)
       let a ← paths; let b ← paths; done
       pure (if samePaths a b then "ok" else "FAIL canonical path sets differ")
   -- SAMEREGION tol a b k probes
-  | "SAMEREGION" => some do
+  | "STROKE_SAMEREGION" => some do
       let tol ← rat; let a ← paths; let b ← paths
       let k ← nat; let probes ← rep k pt; done
       pure (verdict (sameRegion a b tol probes))
